@@ -6,12 +6,15 @@ func init() {
 	vxRegister("H09wQ", H09wQ)
 	vxRegister("H09wT", H09wT)
 	vxRegister("H09wT3", H09wT3)
+	vxRegister("H09wBig", H09wBig)
 }
 
 // vxC09Case builds the shared classifier and one input from the vx inputs (also used by the race replay).
 func vxC09Case(name string) (*Classifier, []byte) {
 	edits, small := 2, true
 	switch name {
+	case "H09wBig":
+		edits = 1
 	case "H09wT":
 		small = false
 	case "H09wT3":
@@ -24,8 +27,14 @@ func vxC09Case(name string) (*Classifier, []byte) {
 	docs := worlds[vxChoice(len(worlds))]
 	c := vxBuildWorld(0.7, docs...)
 	K := vxFamily[docs[vxChoice(len(docs))]]
-	words := vxNoisyCopy(K, []string{"a", "b", "h"}, edits)
-	a, b, pat := vxChoice(2), 0, 0
+	words := vxNoisyCopy(K, []string{"a", "b", "h", "3.101"}, edits)
+	a, b, pat := 1, 0, 0
+	if !small {
+		a = vxChoice(2)
+	}
+	if name == "H09wBig" {
+		a = 1100 // an input of more than 1024 words
+	}
 	if !small {
 		b, pat = vxChoice(2), vxChoice(2)
 	}
@@ -36,6 +45,7 @@ func vxC09Case(name string) (*Classifier, []byte) {
 func H09wQ()  { h09w("H09wQ") }
 func H09wT()  { h09w("H09wT") }
 func H09wT3() { h09w("H09wT3") }
+func H09wBig() { h09w("H09wBig") }
 
 // h09w: lemma L3 - Match stores nothing into memory that existed before the call (the
 // classifier and its corpus), hence concurrent calls cannot race and return their sequential result.
